@@ -127,9 +127,10 @@ def build(flavour="asan", quiet=False):
         for tag, (srcs, d, extra) in groups.items():
             for s in srcs:
                 futs.append(ex.submit(cc, os.path.join(d, s), objname(tag, s), extra))
-        # clean-room ISA-L stand-in (verif-owned: not instrumented for ThreadSanitizer, its counters are not library state)
+        # clean-room ISA-L stand-in (instrumented like the library, so accesses to adapter-owned buffers are visible to
+        # ThreadSanitizer; its own statistics counters are compiled out there)
         futs.append(ex.submit(cc, os.path.join(VERIF, "sim", "isal", "isal_stub.c"),
-                              os.path.join(out, "obj", "isal_stub.o"), ["-fno-sanitize=thread"] if flavour == "tsan" else []))
+                              os.path.join(out, "obj", "isal_stub.o"), ["-DISAL_STUB_NO_COUNTERS"] if flavour == "tsan" else []))
         for f in futs:
             f.result()
 
